@@ -11,8 +11,9 @@ Proof.
 Qed.
 Lemma mem_N_false : forall x l, mem_N x l = false <-> ~ In x l.
 Proof.
-  intros. rewrite <- mem_N_In. destruct (mem_N x l); split; intros H; try congruence; try reflexivity.
-  exfalso. apply H. reflexivity.
+  intros. rewrite <- mem_N_In. destruct (mem_N x l).
+  - split; intros H; [discriminate | exfalso; apply H; reflexivity].
+  - split; intros H; [intros H'; discriminate | reflexivity].
 Qed.
 Lemma nodup_N_NoDup : forall l, nodup_N l = true <-> NoDup l.
 Proof.
